@@ -554,6 +554,10 @@ def g_nc_tokentable(rng, tier, props):
     return GN.token_table_histories(props, fillers=(2048,))
 
 
+def g_nc_tokentable_forged(rng, tier, props):
+    return GN.token_table_forged(props)
+
+
 def g_nc_tokentable_under(rng, tier, props):
     return GN.token_table_histories(props, fillers=(2047,))
 
@@ -664,8 +668,8 @@ def g_wire_netcode(rng, tier, props):
             for plen in ((0, 1, 1299, 1300) if kind == "Payload" else (0,)):
                 steps.append({"a": "rt_netcode", "kind": kind, "seq": str(seq), "plen": plen, "shape": "%s-seq%d" % (kind, seq.bit_length())})
     for n in (range(1, 33) if full else (1, 2, 3, 16, 31, 32)):
-        for fam in ("v4", "v6", "mixed"):
-            hosts = [(1000 + i if (fam == "v6" or (fam == "mixed" and i % 2)) else i + 1) for i in range(n)]
+        for fam in ("v4", "v6", "mixed", "v6special"):
+            hosts = [(3000 + i if fam == "v6special" else 1000 + i if (fam == "v6" or (fam == "mixed" and i % 2)) else i + 1) for i in range(n)]
             steps.append({"a": "rt_token", "hosts": hosts, "id": rng.choice([0, 7, (1 << 30)]), "ud": rng.randint(0, 200), "create": rng.choice([0, 100]),
                           "expire_s": rng.choice([0, 30]), "timeout_s": rng.choice([-1, 0, 15]), "shape": "token-%d-%s" % (n, fam)})
     out = []
@@ -720,7 +724,7 @@ PLANS = {
                 mc=[mc_job("nc_payload", "MC_Netcode", {"quick": ["MC_NC_q4.cfg"], "thorough": ["MC_NC_q4.cfg", "MC_NC_q1.cfg"]}, ["C04"], strict=False)],
                 level="model_checking", assumptions=NC_ASSUME),
     "C05": Plan("nc", "TraceNetcodeMon", ["C05"], [("handshake_histories", g_nc_handshake), ("token_table", g_nc_tokentable),
-                                                       ("token_table_under", g_nc_tokentable_under)],
+                                                       ("token_table_under", g_nc_tokentable_under), ("token_table_forged", g_nc_tokentable_forged)],
                 mc=[mc_job("nc_cross", "MC_Netcode", {"quick": ["MC_NC_q1.cfg", "MC_NC_q5.cfg"],
                                                              "thorough": ["MC_NC_q1.cfg", "MC_NC_q2.cfg", "MC_NC_q3.cfg", "MC_NC_bad.cfg", "MC_NC_q5.cfg", "MC_NC_t5.cfg", "MC_NC_q6.cfg"]}, ["C05"], strict=False),
                     # tokens showing up at other addresses: every finished behaviour of the focused configuration is replayed
@@ -824,8 +828,8 @@ PLANS = {
                 mc=[mc_job("conn_sizes", "MC_Conn", {"quick": ["MC_C13_q1.cfg", "MC_C13_q2.cfg"], "thorough": ["MC_C13_q1.cfg", "MC_C13_q2.cfg"]}, ["C13"])],
                 level="model_checking", assumptions=MSG_ASSUME),
     "C14": Plan("msg", "TraceRenetMon", ["C14"], [("random_budget", g_random_budget)],
-                mc=[mc_job("conn_budget", "MC_Conn", {"quick": ["MC_C14_q1.cfg", "MC_C14_q2.cfg", "MC_C14_q3.cfg"],
-                                                       "thorough": ["MC_C14_q1.cfg", "MC_C14_q2.cfg", "MC_C14_q3.cfg", "MC_C14_t1.cfg"]}, ["C14"])],
+                mc=[mc_job("conn_budget", "MC_Conn", {"quick": ["MC_C14_q1.cfg", "MC_C14_q2.cfg", "MC_C14_q3.cfg", "MC_C14_q4.cfg"],
+                                                       "thorough": ["MC_C14_q1.cfg", "MC_C14_q2.cfg", "MC_C14_q3.cfg", "MC_C14_q4.cfg", "MC_C14_t1.cfg", "MC_C14_t2.cfg"]}, ["C14"])],
                 level="model_checking", assumptions=MSG_ASSUME),
     "C15": Plan("msg", "TraceRenetMon", ["C15"], [("random_timing", g_random_timing)],
                 mc=[mc_job("conn_timing", "MC_Conn", {"quick": ["MC_C15_q1.cfg", "MC_C15_q2.cfg"], "thorough": ["MC_C15_q1.cfg", "MC_C15_q2.cfg"]}, ["C15"])],
